@@ -7,6 +7,28 @@ It gives `C03_free_only_pool` and (with the growth lemma) `C03_caller_untouched`
 namespace Netpoll.Buf.Own
 open Netpoll.Buf
 
+theorem getElem?_append_one {α : Type} {l : List α} {a x : α} {i : Nat} (h : (l ++ [a])[i]? = some x) :
+    l[i]? = some x ∨ (i = l.length ∧ x = a) := by
+  rcases Nat.lt_trichotomy i l.length with hlt | heq | hgt
+  · left; rwa [List.getElem?_append_left hlt] at h
+  · right; subst heq; simp at h; exact ⟨rfl, h.symm⟩
+  · rw [List.getElem?_eq_none (by simp; omega)] at h; cases h
+
+theorem getElem?_set_cases {α : Type} {l : List α} {a x : α} {i j : Nat} (h : (l.set i a)[j]? = some x) :
+    (j = i ∧ x = a) ∨ (j ≠ i ∧ l[j]? = some x) := by
+  by_cases hij : i = j
+  · subst hij
+    left
+    rw [List.getElem?_set_self'] at h
+    cases hl : l[i]? <;> simp [hl] at h
+    exact ⟨rfl, h.symm⟩
+  · right; rw [List.getElem?_set_ne hij] at h; exact ⟨fun h' => hij h'.symm, h⟩
+
+theorem lt_of_getElem? {α : Type} {l : List α} {x : α} {i : Nat} (h : l[i]? = some x) : i < l.length := by
+  rcases Nat.lt_or_ge i l.length with h' | h'
+  · exact h'
+  · rw [List.getElem?_eq_none h'] at h; cases h
+
 /-- kinds and capacities of existing blocks never change (the table only grows, `frees`/`split` change) -/
 def Ext (s s' : Mem) : Prop :=
   ∀ (b : Nat) (bl : Block), s.blocks[b]? = some bl → ∃ bl' : Block, s'.blocks[b]? = some bl' ∧ bl'.kind = bl.kind ∧ bl'.cap = bl.cap
@@ -62,6 +84,8 @@ theorem EvOK.ext {cfg : Cfg} {st : Bool} {s s' : Mem} {e : Ev} (h : Ext s s') : 
 structure Core (cfg : Cfg) (st : Bool) (s : Mem) : Prop where
   node : ∀ (i : Nat) (nd : NodeS), s.nodes[i]? = some nd → NodeOK cfg s nd
   log : ∀ e ∈ s.log, EvOK cfg st s e
+  /-- only pool blocks have ever been handed to `free` -/
+  frees : ∀ (k : Nat) (bl : Block), s.blocks[k]? = some bl → bl.frees > 0 → bl.kind = .pool
 
 /-- a cache block of capacity `cp`: memory that may go to `free` as a whole -/
 def CacheOK (cfg : Cfg) (s : Mem) (blk cp : Nat) : Prop :=
@@ -96,13 +120,14 @@ theorem BufOK.empty {cfg : Cfg} {s : Mem} {b : Buf} (h1 : b.caches = []) (h2 : b
 theorem Core.of_eq {cfg : Cfg} {st : Bool} {s s' : Mem} (hc : Core cfg st s) (hn : s'.nodes = s.nodes) (hb : s'.blocks = s.blocks)
     (hl : s'.log = s.log) : Core cfg st s' := by
   have he : Ext s s' := Ext.of_blocks_eq hb
-  exact ⟨fun i nd h => (hc.node i nd (by simpa [hn] using h)).ext he, fun e h => (hc.log e (by simpa [hl] using h)).ext he⟩
+  exact ⟨fun i nd h => (hc.node i nd (by simpa [hn] using h)).ext he, fun e h => (hc.log e (by simpa [hl] using h)).ext he,
+    fun k bl h => hc.frees k bl (by rw [← hb]; exact h)⟩
 
 /-! ### primitives -/
 
 theorem setNode_core {cfg : Cfg} {st : Bool} {s : Mem} {i : Nat} {nd : NodeS} (hc : Core cfg st s) (hn : NodeOK cfg s nd) :
     Core cfg st (s.setNode i nd) := by
-  refine ⟨fun j nd' h => ?_, hc.log⟩
+  refine ⟨fun j nd' h => ?_, hc.log, hc.frees⟩
   simp only [Mem.setNode, List.getElem?_set] at h
   split at h
   · split at h
@@ -120,7 +145,7 @@ theorem NodeOK.of_same {cfg : Cfg} {s : Mem} {nd nd' : NodeS} (h : NodeOK cfg s 
   intro hu b hb; rw [h3]; exact h (h1 ▸ hu) b (h2 ▸ hb)
 
 theorem emit_core {cfg : Cfg} {st : Bool} {s : Mem} {e : Ev} (hc : Core cfg st s) (he : EvOK cfg st s e) : Core cfg st (s.emit e) := by
-  refine ⟨hc.node, fun e' h => ?_⟩
+  refine ⟨hc.node, fun e' h => ?_, hc.frees⟩
   simp only [Mem.emit, List.mem_append, List.mem_singleton] at h
   rcases h with h | h
   · exact hc.log e' h
@@ -158,7 +183,14 @@ theorem allocBlock_get (s : Mem) (k : Kind) (c : Nat) :
 
 theorem allocBlock_core {cfg : Cfg} {st : Bool} {s : Mem} (k : Kind) (c : Nat) (hc : Core cfg st s) : Core cfg st (s.allocBlock k c).1 := by
   have he := allocBlock_ext s k c
-  refine ⟨fun i nd h => ?_, fun e h => ?_⟩
+  refine ⟨fun i nd h => ?_, fun e h => ?_, fun j bl h hf => ?_⟩
+  rotate_left 2
+  · have hb : (s.allocBlock k c).1.blocks = s.blocks ++ [{ kind := k, cap := c, pid := if k = .pool then s.npool else 0 }] := by
+      cases k <;> simp [Mem.allocBlock]
+    rw [hb] at h
+    rcases getElem?_append_one h with h | ⟨_, h⟩
+    · exact hc.frees j bl h hf
+    · subst h; simp at hf
   · have : s.nodes[i]? = some nd := by cases k <;> simpa [Mem.allocBlock] using h
     exact (hc.node i nd this).ext he
   · cases k
@@ -172,8 +204,9 @@ theorem allocBlock_core {cfg : Cfg} {st : Bool} {s : Mem} (k : Kind) (c : Nat) (
 /-- the general way to re-establish `Core`: blocks extended, every node / event is an old one or fine now -/
 theorem Core.step {cfg : Cfg} {st : Bool} {s s' : Mem} (hc : Core cfg st s) (he : Ext s s')
     (hn : ∀ (i : Nat) (nd : NodeS), s'.nodes[i]? = some nd → s.nodes[i]? = some nd ∨ NodeOK cfg s' nd)
-    (hl : ∀ e ∈ s'.log, e ∈ s.log ∨ EvOK cfg st s' e) : Core cfg st s' := by
-  refine ⟨fun i nd h => ?_, fun e h => ?_⟩
+    (hl : ∀ e ∈ s'.log, e ∈ s.log ∨ EvOK cfg st s' e)
+    (hf : ∀ (k : Nat) (bl : Block), s'.blocks[k]? = some bl → bl.frees > 0 → bl.kind = .pool) : Core cfg st s' := by
+  refine ⟨fun i nd h => ?_, fun e h => ?_, hf⟩
   · rcases hn i nd h with h1 | h1
     · exact (hc.node i nd h1).ext he
     · exact h1
@@ -194,28 +227,6 @@ theorem mallocMem_spec {cfg : Cfg} {st : Bool} {s : Mem} (c : Nat) (hc : Core cf
   · refine ⟨allocBlock_ext _ _ _, allocBlock_core _ _ hc, by simp [Mem.allocBlock], ?_⟩
     obtain ⟨bl, h1, h2, h3⟩ := allocBlock_get s .pool (pow2ge c)
     exact ⟨bl, h1, h3, Or.inl h2⟩
-
-theorem getElem?_append_one {α : Type} {l : List α} {a x : α} {i : Nat} (h : (l ++ [a])[i]? = some x) :
-    l[i]? = some x ∨ (i = l.length ∧ x = a) := by
-  rcases Nat.lt_trichotomy i l.length with hlt | heq | hgt
-  · left; rwa [List.getElem?_append_left hlt] at h
-  · right; subst heq; simp at h; exact ⟨rfl, h.symm⟩
-  · rw [List.getElem?_eq_none (by simp; omega)] at h; cases h
-
-theorem getElem?_set_cases {α : Type} {l : List α} {a x : α} {i j : Nat} (h : (l.set i a)[j]? = some x) :
-    (j = i ∧ x = a) ∨ (j ≠ i ∧ l[j]? = some x) := by
-  by_cases hij : i = j
-  · subst hij
-    left
-    rw [List.getElem?_set_self'] at h
-    cases hl : l[i]? <;> simp [hl] at h
-    exact ⟨rfl, h.symm⟩
-  · right; rw [List.getElem?_set_ne hij] at h; exact ⟨fun h' => hij h'.symm, h⟩
-
-theorem lt_of_getElem? {α : Type} {l : List α} {x : α} {i : Nat} (h : l[i]? = some x) : i < l.length := by
-  rcases Nat.lt_or_ge i l.length with h' | h'
-  · exact h'
-  · rw [List.getElem?_eq_none h'] at h; cases h
 
 theorem freeMem_cases (cfg : Cfg) (s : Mem) (blk : Option Nat) (cap : Nat) :
     s.freeMem cfg blk cap = s ∨
@@ -248,7 +259,23 @@ theorem freeMem_nodes (cfg : Cfg) (s : Mem) (blk : Option Nat) (cap : Nat) : (s.
 theorem freeMem_core {cfg : Cfg} {st : Bool} {s : Mem} {blk : Option Nat} {cap : Nat} (hc : Core cfg st s)
     (hb : ∀ b, blk = some b → BlkOK cfg s b cap) : Core cfg st (s.freeMem cfg blk cap) := by
   have he := freeMem_ext cfg s blk cap
-  refine hc.step he (fun i nd h => Or.inl (by simpa [freeMem_nodes] using h)) (fun e h => ?_)
+  refine hc.step he (fun i nd h => Or.inl (by simpa [freeMem_nodes] using h)) (fun e h => ?_) (fun k bl1 hk1 hf1 => ?_)
+  rotate_left
+  · rcases freeMem_cases cfg s blk cap with h' | ⟨b, bl, hblk, hcap, hbl, h'⟩
+    · rw [h'] at hk1; exact hc.frees k bl1 hk1 hf1
+    · rw [h'] at hk1
+      simp only at hk1
+      by_cases hkb : b = k
+      · subst hkb
+        rw [List.getElem?_set_self (lt_of_getElem? hbl)] at hk1
+        cases hk1
+        obtain ⟨bl0, h1, h2⟩ := hb b hblk
+        rw [hbl] at h1; cases h1
+        rcases h2 with h2 | ⟨_, h2⟩
+        · exact h2
+        · exact absurd h2 hcap
+      · rw [List.getElem?_set_ne hkb] at hk1
+        exact hc.frees k bl1 hk1 hf1
   rcases freeMem_cases cfg s blk cap with h' | ⟨b, bl, hblk, hcap, hbl, h'⟩
   · rw [h'] at h; exact Or.inl h
   · rw [h'] at h
@@ -281,13 +308,13 @@ theorem newNode_spec {cfg : Cfg} {st : Bool} {s : Mem} (size : Nat) (hc : Core c
     Ext s (s.newNode cfg size).1 ∧ Core cfg st (s.newNode cfg size).1 := by
   rcases (newNode_cases cfg s size).2 with ⟨_, h⟩ | ⟨_, c, h⟩
   · rw [h]
-    refine ⟨Ext.of_blocks_eq rfl, hc.step (Ext.of_blocks_eq rfl) (fun i nd h => ?_) (fun e h => Or.inl h)⟩
+    refine ⟨Ext.of_blocks_eq rfl, hc.step (Ext.of_blocks_eq rfl) (fun i nd h => ?_) (fun e h => Or.inl h) hc.frees⟩
     rcases getElem?_append_one h with h | ⟨_, h⟩
     · exact Or.inl h
     · right; subst h; exact NodeOK.of_unmanaged rfl
   · rw [h]
     obtain ⟨he, hc', hn, bl, h1, h2, h3⟩ := mallocMem_spec (cfg := cfg) (s := s) c hc
-    refine ⟨he.trans (Ext.of_blocks_eq rfl), hc'.step (Ext.of_blocks_eq rfl) (fun i nd h => ?_) (fun e h => Or.inl h)⟩
+    refine ⟨he.trans (Ext.of_blocks_eq rfl), hc'.step (Ext.of_blocks_eq rfl) (fun i nd h => ?_) (fun e h => Or.inl h) hc'.frees⟩
     rcases getElem?_append_one h with h | ⟨_, h⟩
     · exact Or.inl h
     · right; subst h
